@@ -11,7 +11,7 @@ from .restart import tracked_angles
 
 PROPERTY = "C19"
 LEVEL = "exploration"
-BUDGET = {"quick": 160, "thorough": 6000}
+BUDGET = {"quick": 160, "thorough": 3000}
 CHUNK = 1
 RUN_TIMEOUT_S = 1500
 MAX_DISCARD_FRACTION = 0.5
